@@ -6,7 +6,7 @@ from functools import singledispatch
 
 from .array import is_numeric_array
 from .op import trace_ops
-from .program import OpProgram
+from .program import OpProgram, make_tuple
 
 
 def _debug(x):
@@ -54,7 +54,19 @@ def trace_function(fn, kwargs: dict, *, allow_constants=False):
         if id(result) not in dag or not is_variable(result):
             continue  # not needed
         for arg in args:
-            dag.setdefault(id(arg), (arg, None, None))
+            if (
+                isinstance(arg, tuple)
+                and is_variable(arg)
+                and id(arg) not in dag
+                and id(arg) not in kwarg_ids
+            ):
+                # a tuple of arrays built by fn itself (the operand of a finitary
+                # op such as stack): rebuild it from its elements at run time
+                dag[id(arg)] = arg, make_tuple, arg
+                for elt in arg:
+                    dag.setdefault(id(elt), (elt, None, None))
+            else:
+                dag.setdefault(id(arg), (arg, None, None))
         dag[id(result)] = result, op, args
     anf = list(reversed(dag.values()))  # forward
 
